@@ -59,3 +59,23 @@ Theorem C16_splitter_nothing_after_the_pallet :
   forall w p n ph, sc_phase (me w p) = S ph -> sc_next w p n = sc_release w p n.
 Proof. exact FactoryBlocks.splitter_nothing_after_the_pallet. Qed.
 Print Assumptions C16_splitter_nothing_after_the_pallet.
+
+(* the combiner's pack step (every world): when one of the outstanding ingredient reservations has been granted, the item
+   retrieved with the first granted token -- from the in-edge that token was issued on -- goes into THE pallet this combiner is
+   filling, at the end of its contents, and into no other item; exactly that token leaves the outstanding list together with
+   its in-edge index; the pack is recorded right after the retrieval *)
+Theorem C16_combiner_packs_the_retrieved_item :
+  forall w p ti tok w1 i,
+  let pr := me w p in let n := pown pr in let nd := get_node w n in
+  ppc pr = 4%nat -> (p < length (wprocs w))%nat -> (pit pr < length (witems w))%nat ->
+  first_triggered w (ptks pr) = Some (ti, tok) ->
+  e_get w (nth (nth ti (plst pr) 0%nat) (nins nd) 0%nat) p tok n = (w1, Some i) ->
+  i_pallet (get_item w i) = false ->
+  let w' := fst (combiner_block w p) in
+  i_contents (get_item w' (pit pr)) = i_contents (get_item w (pit pr)) ++ [i] /\
+  (forall j, j <> pit pr -> get_item w' j = get_item w j) /\
+  ptks (me w' p) = ListLemmas.remove_nth ti (ptks pr) /\ plst (me w' p) = ListLemmas.remove_nth ti (plst pr) /\
+  pit (me w' p) = pit pr /\ pix (me w' p) = S (pix pr) /\
+  exists l, wlog w' = wlog w1 ++ LPack (wnow w1) n (pit pr) i :: l.
+Proof. exact FactoryBlocks.combiner_packs_the_retrieved_item. Qed.
+Print Assumptions C16_combiner_packs_the_retrieved_item.
